@@ -1,1 +1,64 @@
-(* placeholder *)
+(* C10 -- deriving a new converter never alters the converters it was derived from.
+   Object-level model (model/Heap.v): Record objects are heap cells, a converter's records list is a list of addresses;
+   the index dictionaries are created afresh by every Converter(...) and hold immutable strings.
+   frame n h0 h': the first n cells (everything that existed before the call) are what they were;
+   owned n R h': the result refers only to cells allocated by the call. *)
+From Curies.model Require Import Str PyData Trie Conv Query Mutate Reconcile Heap.
+From Curies.proofs Require Import StrFacts MutateFacts HeapFacts.
+
+(* chain: no pre-existing cell is written, the result owns only new cells *)
+Theorem C10_chain : forall fold_c h Cs sens h' R, h_chain fold_c h Cs sens = Val (h', R) ->
+  frame (length h) h h' /\ owned (length h) R h'.
+Proof. exact h_chain_frame. Qed.
+Print Assumptions C10_chain.
+Theorem C10_subconverter : forall h C P, let '(h', R) := h_sub h C P in frame (length h) h h' /\ owned (length h) R h'.
+Proof. exact h_sub_frame. Qed.
+Print Assumptions C10_subconverter.
+(* remap_curie_prefixes, remap_uri_prefixes, rewire: the copies are mutated, never the originals -- whatever is written *)
+Theorem C10_remap : forall h C f, let '(h', R) := h_remap h C f in frame (length h) h h' /\ owned (length h) R h'.
+Proof. exact h_remap_frame. Qed.
+Print Assumptions C10_remap.
+Theorem C10_copy : forall h C, frame (length h) h (fst (copy_records h C)) /\
+  owned (length h) (snd (copy_records h C)) (fst (copy_records h C)) /\ length (snd (copy_records h C)) = length C.
+Proof. exact copy_records_frame. Qed.
+Print Assumptions C10_copy.
+
+(* hence every input converter (all of whose Record objects existed before the call) has exactly the records it had *)
+Theorem C10_inputs_same : forall n h0 h' C, frame n h0 h' -> (forall a, In a C -> a < n) -> view h' C = view h0 C.
+Proof. exact inputs_unchanged. Qed.
+Print Assumptions C10_inputs_same.
+
+(* later modification of the derived converter (any history of add_record / add_prefix with freshly created records,
+   accepted or rejected) does not leak back either *)
+Theorem C10_add_record : forall fold_c n h0 h R a cs mg h' R', frame n h0 h -> owned n R h -> n <= a < length h ->
+  h_add_record fold_c h R a cs mg = Val (h', R') -> frame n h0 h' /\ owned n R' h' /\ length h' = length h.
+Proof. exact h_add_record_frame. Qed.
+Print Assumptions C10_add_record.
+Theorem C10_later : forall fold_c n h0 ops hr, frame n h0 (fst hr) -> owned n (snd hr) (fst hr) ->
+  frame n h0 (fst (fold_left (follow_step fold_c) ops hr)) /\
+  owned n (snd (fold_left (follow_step fold_c) ops hr)) (fst (fold_left (follow_step fold_c) ops hr)).
+Proof. exact follow_frame. Qed.
+Print Assumptions C10_later.
+
+(* without the copies the statement is false: defect D3 *)
+Theorem C10_sharing_refuted :
+  let ra := {| r_prefix := [97%N]; r_uri := [104%N]; r_psyn := []; r_usyn := []; r_pat := None |} in
+  let rb := {| r_prefix := [98%N]; r_uri := [104%N]; r_psyn := []; r_usyn := []; r_pat := None |} in
+  let h := [ra; rb] in
+  (exists h' R, h_chain_shared (fun c => [c]) h [[0]; [1]] true = Val (h', R) /\ deref h' 0 <> deref h 0 /\ R = [0]) /\
+  (exists h' R, h_chain (fun c => [c]) h [[0]; [1]] true = Val (h', R) /\ deref h' 0 = deref h 0 /\ deref h' 1 = deref h 1 /\ R = [2]).
+Proof. exact sharing_refuted. Qed.
+Print Assumptions C10_sharing_refuted.
+
+(* the object-level chain refines the value-level chain of C09 (Mutate.chain): same outcome (result or the same error),
+   and the records of the value-level result are exactly the cells the object-level result refers to -- so the
+   theorems of C09 about chain transfer to the object level *)
+Theorem C10_chain_refines : forall fold_c h Cs cs sens,
+  Forall2 (fun ci Ci => recs ci = view h Ci /\ forall a, In a Ci -> a < length h) cs Cs ->
+  match chain fold_c cs sens, h_chain fold_c h Cs sens with
+  | Val ca, Val (h', R) => recs ca = view h' R /\ MutateFacts.swf ca
+  | Raise e, Raise e' => e = e'
+  | _, _ => False
+  end.
+Proof. exact h_chain_sim. Qed.
+Print Assumptions C10_chain_refines.
